@@ -6,7 +6,7 @@
     than an earlier one): Go's slices.SortFunc is not stable, and nothing
     here depends on stability.  [isort] (used by the evaluator) is one. *)
 From Coq Require Import ZArith NArith List Bool Permutation Sorted String.
-From AGH Require Import Base.Run Model.Rewrites Proofs.Rewrites.
+From AGH Require Import Base.Run Model.Rewrites Proofs.Rewrites Model.RewritesEdit Proofs.RewritesEdit.
 Import ListNotations.
 
 Definition is_sort (sort : list entry -> list entry) : Prop :=
@@ -363,3 +363,194 @@ Proof.
             (conj (respond_e_question sort) (respond_e_failed_only_by_upstream sort)))).
 Qed.
 Print Assumptions C06_response_failing_upstream.
+
+(** ** The table edited through the HTTP API (round 3)
+
+    Model/RewritesEdit.v: POST /control/rewrite/add, POST
+    /control/rewrite/delete, PUT /control/rewrite/update and GET
+    /control/rewrite/list as the handlers of rewritehttp.go implement them.
+    [parse] is netip.ParseAddr: any function whose verdict "no address" does
+    not change when the text is lower-cased ([parse_case]); the harness
+    checks that on every answer text. *)
+Definition parse_case (parse : bytes -> option ip) : Prop :=
+  forall s, parse s = None -> parse (to_lower s) = None.
+
+(** The hypothesis is satisfiable by a function that accepts an address. *)
+Theorem C06_edit_parse_hypothesis_satisfiable :
+  parse_case EditExamples.parse_ex /\
+  EditExamples.parse_ex (bs "1.2.3.4") = Some EditExamples.ip1234.
+Proof. exact (conj EditExamples.parse_ex_lower eq_refl). Qed.
+Print Assumptions C06_edit_parse_hypothesis_satisfiable.
+
+(** For every configured table and every history of requests, the stored
+    table is the normalisation of the list the API reports: every stored
+    entry carries the IP and the type that its own (Domain, Answer) denote,
+    never those of an earlier version of the rule. *)
+Theorem C06_edit_table_is_normalised_list :
+  forall parse, parse_case parse ->
+  forall (cfg : list (bytes * bytes)) (ops : list eop),
+    let tbl := fst (run_edits parse (load parse cfg) ops) in
+    tbl = load parse (reported tbl).
+Proof. exact edit_table_is_normalised_list. Qed.
+Print Assumptions C06_edit_table_is_normalised_list.
+
+(** Hence every answer is the answer of a filter freshly created from the
+    reported list, and all the theorems above, stated on normalised tables,
+    hold for the table the API shows. *)
+Theorem C06_edit_answers_from_reported_table :
+  forall parse, parse_case parse ->
+  forall (sort : list entry -> list entry) cfg ops enabled host qt,
+    let tbl := fst (run_edits parse (load parse cfg) ops) in
+    check_host sort enabled tbl host qt =
+      check_host sort enabled (load parse (reported tbl)) host qt /\
+    process_rewrites sort tbl host qt =
+      process_rewrites sort (load parse (reported tbl)) host qt.
+Proof. exact edit_answers_from_reported_table. Qed.
+Print Assumptions C06_edit_answers_from_reported_table.
+
+(** Every address answered after any history is what the answer text of a
+    REPORTED rule denotes; that rule's pattern covers the finally resolved
+    name and the address has the requested family. *)
+Theorem C06_edit_addresses_from_reported_list :
+  forall parse, parse_case parse ->
+  forall sort, (forall l, Permutation (sort l) l) ->
+  forall cfg ops enabled host qt r i,
+    let tbl := fst (run_edits parse (load parse cfg) ops) in
+    check_host sort enabled tbl host qt = Some r -> In i (r_ips r) ->
+    exists final d a,
+      (final = r_canon r \/ (r_canon r = [] /\ final = to_lower host)) /\
+      In (d, a) (reported tbl) /\ parse a = Some i /\
+      (d = final \/ match_wildcard final d = true) /\
+      qt = (if ip_is4 i then qA else qAAAA).
+Proof. exact edit_addresses_from_reported_list. Qed.
+Print Assumptions C06_edit_addresses_from_reported_list.
+
+(** Premises satisfiable: an address is answered after a history. *)
+Theorem C06_edit_addresses_example :
+  let tbl := fst (run_edits EditExamples.parse_ex (load EditExamples.parse_ex EditExamples.cfg)
+                    [EDel (bs "a.test") (bs "1.2.3.4"); EAdd (bs "X.Test") (bs "a.test")]) in
+  reported tbl = [(bs "*.test", bs "1.2.3.4"); (bs "x.test", bs "a.test")] /\
+  check_host isort true tbl (bs "x.test") qA =
+    Some {| r_reason := Rewritten; r_canon := bs "a.test"; r_ips := [EditExamples.ip1234] |}.
+Proof. exact EditExamples.history_answers_address. Qed.
+Print Assumptions C06_edit_addresses_example.
+
+(** After an accepted add or update whose new rule is "name -> A" ("AAAA"),
+    queries of that type for the name, in any spelling, are passed on (no
+    CNAME rule covering the name): in particular the address a rule carried
+    before it was updated into the exception is not answered any more. *)
+Theorem C06_edit_update_exception :
+  forall (parse : bytes -> option ip),
+  forall sort, (forall l, Permutation (sort l) l) -> (forall l, sorted_by_compare (sort l)) ->
+  forall tbl o d a enabled host qt,
+    new_rule o = Some (d, a) -> snd (apply_op parse tbl o) = StOK ->
+    (a = ans_A /\ qt = qA) \/ (a = ans_AAAA /\ qt = qAAAA) ->
+    to_lower d = to_lower host -> is_wildcard (to_lower host) = false ->
+    (forall e, In e (fst (apply_op parse tbl o)) -> matches_host e (to_lower host) = true ->
+               is_cname e = false) ->
+    check_host sort enabled (fst (apply_op parse tbl o)) host qt = Some empty_result.
+Proof. exact edit_exception_effective. Qed.
+Print Assumptions C06_edit_update_exception.
+
+(** Premises satisfiable, on the scenario "a.test -> 1.2.3.4 updated into
+    A.Test -> A beside *.test -> 1.2.3.4": answered 1.2.3.4 before, passed on
+    after, the wildcard still serves its other names. *)
+Theorem C06_edit_update_exception_example :
+  let parse := EditExamples.parse_ex in
+  let tbl := load parse EditExamples.cfg in
+  (new_rule EditExamples.upd = Some (bs "A.Test", ans_A) /\
+   snd (apply_op parse tbl EditExamples.upd) = StOK /\
+   to_lower (bs "A.Test") = to_lower (bs "a.test") /\
+   is_wildcard (to_lower (bs "a.test")) = false /\
+   forallb (fun e => negb (matches_host e (to_lower (bs "a.test"))) || negb (is_cname e))
+           (fst (apply_op parse tbl EditExamples.upd)) = true) /\
+  (check_host isort true tbl (bs "a.test") qA =
+     Some {| r_reason := Rewritten; r_canon := []; r_ips := [EditExamples.ip1234] |} /\
+   snd (apply_op parse tbl EditExamples.upd) = StOK /\
+   reported (fst (apply_op parse tbl EditExamples.upd)) =
+     [(bs "a.test", ans_A); (bs "*.test", bs "1.2.3.4")] /\
+   check_host isort true (fst (apply_op parse tbl EditExamples.upd)) (bs "a.test") qA =
+     Some empty_result /\
+   check_host isort true (fst (apply_op parse tbl EditExamples.upd)) (bs "b.test") qA =
+     Some {| r_reason := Rewritten; r_canon := []; r_ips := [EditExamples.ip1234] |}).
+Proof.
+  exact (conj EditExamples.update_to_exception_premises EditExamples.update_to_exception).
+Qed.
+Print Assumptions C06_edit_update_exception_example.
+
+(** What each request does to the reported list.  add: the new rule, domain
+    lower-cased, is appended (duplicates included).  delete: every rule whose
+    reported texts are bytewise the target goes, the rest keeps its order,
+    the reply is 200 even when nothing went.  update: rejected exactly when
+    the list does not report the target, else the first such rule is
+    replaced in its place. *)
+Theorem C06_edit_requests :
+  forall (parse : bytes -> option ip) tbl,
+  (forall d a,
+     let e := normalize (fresh parse d a) in
+     apply_op parse tbl (EAdd d a) = (tbl ++ [e], StOK) /\
+     reported (tbl ++ [e]) = reported tbl ++ [(to_lower d, e_ans e)]) /\
+  (forall d a,
+     snd (apply_op parse tbl (EDel d a)) = StOK /\
+     reported (fst (apply_op parse tbl (EDel d a))) =
+       filter (fun p => negb (eqb_texts p (d, a))) (reported tbl)) /\
+  (forall d a, ~ In (d, a) (reported tbl) -> fst (apply_op parse tbl (EDel d a)) = tbl) /\
+  (forall td ta nd na,
+     let n := normalize (fresh parse nd na) in
+     (~ In (td, ta) (reported tbl) /\ apply_op parse tbl (EUpd td ta nd na) = (tbl, StBad)) \/
+     (exists pre s post,
+        tbl = pre ++ s :: post /\ (e_dom s, e_ans s) = (td, ta) /\
+        ~ In (td, ta) (reported pre) /\
+        apply_op parse tbl (EUpd td ta nd na) = (pre ++ n :: post, StOK))).
+Proof.
+  exact (fun parse tbl =>
+    conj (edit_add_spec parse tbl)
+      (conj (edit_delete_spec parse tbl)
+        (conj (edit_delete_missing_is_noop parse tbl) (edit_update_spec parse tbl)))).
+Qed.
+Print Assumptions C06_edit_requests.
+
+(** A rejected request (400) leaves the table as it was. *)
+Theorem C06_edit_failed_op_is_noop :
+  forall (parse : bytes -> option ip) tbl o,
+    snd (apply_op parse tbl o) = StBad -> fst (apply_op parse tbl o) = tbl.
+Proof. exact edit_failed_op_is_noop. Qed.
+Print Assumptions C06_edit_failed_op_is_noop.
+
+Theorem C06_edit_failed_op_example :
+  let parse := EditExamples.parse_ex in
+  snd (apply_op parse (load parse EditExamples.cfg) EBad) = StBad /\
+  snd (apply_op parse (load parse EditExamples.cfg)
+         (EUpd (bs "x.test") ans_A (bs "x.test") ans_AAAA)) = StBad /\
+  ~ In (bs "x.test", ans_A) (reported (load parse EditExamples.cfg)).
+Proof. exact EditExamples.rejected_requests. Qed.
+Print Assumptions C06_edit_failed_op_example.
+
+(** Letter case of the TARGET of delete / update (observed in the code, not
+    claimed by the property): stored domains are lower-cased and the target
+    is compared as sent, so a target whose domain has a capital letter is
+    never found after any history; the API finds exactly the spelling that
+    GET /control/rewrite/list shows. *)
+Theorem C06_edit_target_compared_as_sent :
+  forall parse, parse_case parse ->
+  forall cfg ops d a,
+    to_lower d <> d ->
+    ~ In (d, a) (reported (fst (run_edits parse (load parse cfg) ops))).
+Proof.
+  exact (fun parse H cfg ops d a =>
+    edit_target_with_capitals_not_found parse (fst (run_edits parse (load parse cfg) ops)) d a
+      (run_edits_canonical parse H ops _ (load_canonical parse H cfg))).
+Qed.
+Print Assumptions C06_edit_target_compared_as_sent.
+
+Theorem C06_edit_target_example :
+  let parse := EditExamples.parse_ex in
+  reported (load parse EditExamples.cfg_caps) = [(bs "a.test", bs "1.2.3.4")] /\
+  apply_op parse (load parse EditExamples.cfg_caps) (EDel (bs "A.Test") (bs "1.2.3.4")) =
+    (load parse EditExamples.cfg_caps, StOK) /\
+  apply_op parse (load parse EditExamples.cfg_caps)
+      (EUpd (bs "A.Test") (bs "1.2.3.4") (bs "a.test") ans_A) =
+    (load parse EditExamples.cfg_caps, StBad) /\
+  to_lower (bs "A.Test") <> bs "A.Test".
+Proof. exact EditExamples.target_with_capitals. Qed.
+Print Assumptions C06_edit_target_example.
